@@ -280,7 +280,7 @@ def labelsOf (st : Store) (ids : List Nat) : Option (List Nat) := optAll (ids.ma
 
 def needLabels (st : Store) (ids : List Nat) : Prog (List Nat) :=
   match labelsOf st ids with
-  | some ls => pure ls
+  | some ls => .pure ls
   | none => .crash "get_argument_by_id on a removed argument"
 
 def DState.argLit (d : DState) (l : Nat) : Prog Nat :=
@@ -288,46 +288,50 @@ def DState.argLit (d : DState) (l : Nat) : Prog Nat :=
   | none => .crash "arg_to_lit: no such argument"
   | some id =>
     match d.enc.argVar.getD id none with
-    | some x => pure x
+    | some x => .pure x
     | none => .crash "arg_to_lit: argument without a solver variable"
 
-def fromCache (d : DState) (b : Bool) (e : List Nat) : Prog (DState × AccAns) := do
-  let _ ← needLabels d.af e
-  pure (d, ⟨b, some e⟩)
+def fromCache (d : DState) (b : Bool) (e : List Nat) : Prog (DState × AccAns) :=
+  (needLabels d.af e).bind fun _ => .pure (d, ⟨b, some e⟩)
+
+/-- the SAT call of a credulous query, on an up-to-date encoding -/
+def credSolve (d : DState) (l : Nat) : Prog (DState × AccAns) :=
+  (d.argLit l).bind fun x =>
+  .solve 0 (d.enc.assumptions ++ [pl x]) fun r =>
+    match r with
+    | some m =>
+      (needLabels d.af (d.enc.argsWhere m (fun b => b != some false))).bind fun acc =>
+      (needLabels d.af (d.enc.extension m)).bind fun _ =>
+      .pure ({ d with buffer := d.buffer ++ [.cred acc [] (some (d.enc.extension m))] },
+             ⟨true, some (d.enc.extension m)⟩)
+    | none => .pure ({ d with buffer := d.buffer ++ [.cred [] [l] none] }, ⟨false, none⟩)
 
 /-- credulous acceptance of the complete and stable dynamic solvers -/
 def credQuery (d : DState) (l : Nat) : Prog (DState × AccAns) :=
   match cachedCred d.buffer.reverse l with
   | (some b, some e) => fromCache d b e
-  | _ => do
-    let d ← d.updateEncoding
-    let x ← d.argLit l
-    match ← doSolve 0 (d.enc.assumptions ++ [pl x]) with
+  | _ => d.updateEncoding.bind fun d' => credSolve d' l
+
+/-- the SAT call of a skeptical query of the stable solver, on an up-to-date encoding -/
+def stSkepSolve (d : DState) (l : Nat) : Prog (DState × AccAns) :=
+  (d.argLit l).bind fun x =>
+  .solve 0 (d.enc.assumptions ++ [nl x]) fun r =>
+    match r with
     | some m =>
-      let acc ← needLabels d.af (d.enc.argsWhere m (fun b => b != some false))
-      let ext := d.enc.extension m
-      let _ ← needLabels d.af ext
-      pure ({ d with buffer := d.buffer ++ [.cred acc [] (some ext)] }, ⟨true, some ext⟩)
+      (needLabels d.af (d.enc.argsWhere m (fun b => b != some true))).bind fun ref =>
+      (needLabels d.af (d.enc.extension m)).bind fun _ =>
+      .pure ({ d with buffer := d.buffer ++ [.skep [] ref (some (d.enc.extension m))] },
+             ⟨false, some (d.enc.extension m)⟩)
     | none =>
-      pure ({ d with buffer := d.buffer ++ [.cred [] [l] none] }, ⟨false, none⟩)
+      (needArg d.af l).bind fun id =>
+      (needLabels d.af ((d.af.iterFrom id).map (·.2))).bind fun ref =>
+      .pure ({ d with buffer := d.buffer ++ [.skep [l] ref none] }, ⟨true, none⟩)
 
 /-- skeptical acceptance of the stable dynamic solver -/
 def stSkepQuery (d : DState) (l : Nat) : Prog (DState × AccAns) :=
   match cachedSkep d.buffer.reverse l with
   | (some b, some e) => fromCache d b e
-  | _ => do
-    let d ← d.updateEncoding
-    let x ← d.argLit l
-    match ← doSolve 0 (d.enc.assumptions ++ [nl x]) with
-    | some m =>
-      let ref ← needLabels d.af (d.enc.argsWhere m (fun b => b != some true))
-      let ext := d.enc.extension m
-      let _ ← needLabels d.af ext
-      pure ({ d with buffer := d.buffer ++ [.skep [] ref (some ext)] }, ⟨false, some ext⟩)
-    | none => do
-      let id ← needArg d.af l
-      let ref ← needLabels d.af ((d.af.iterFrom id).map (·.2))
-      pure ({ d with buffer := d.buffer ++ [.skep [l] ref none] }, ⟨true, none⟩)
+  | _ => d.updateEncoding.bind fun d' => stSkepSolve d' l
 
 /-! ## the preferred solver: maximal-extension search over the sparse framework -/
 
